@@ -57,6 +57,19 @@ SopFn(n, cubes) == UNION {CubeFn(cubes[k], n) : k \in 1..Len(cubes)}
 SoesFn(n, ecubes) == UNION {EcubeFn(ecubes[k], n) : k \in 1..Len(ecubes)}
 EsopFn(n, cubes) == {m \in Dom(n) : Cardinality({k \in 1..Len(cubes) : CubeVal(cubes[k], AsSet(m, n))}) % 2 = 1}
 
+\* The same denotations computed from the satisfying set of each term, enumerated directly from its free
+\* variables, instead of a test of every assignment (cost: the size of the satisfying sets rather than
+\* terms x assignments).  Equality with the definitions above is an obligation of mc/MC_TwoLevel; trace
+\* validation evaluates these.
+LOCAL FST == INSTANCE FiniteSetsExt
+LOCAL SQF == INSTANCE SequencesExt
+SetVal(S) == FST!FoldSet(LAMBDA i, acc : acc + 2^i, 0, S)
+CubeFnX(c, n) ==
+  IF Contradictory(c) \/ ~(c.p \subseteq 0..(n - 1)) THEN {}
+  ELSE LET base == SetVal(c.p) IN {base + SetVal(F) : F \in SUBSET ((0..(n - 1)) \ (c.p \cup c.q))}
+SopFnX(n, cubes) == UNION {CubeFnX(cubes[k], n) : k \in 1..Len(cubes)}
+EsopFnX(n, cubes) == SQF!FoldLeft(LAMBDA acc, c : SymDiff(acc, CubeFnX(c, n)), {}, cubes)
+
 \* C14: containment-irredundant cover
 Irredundant(cubes) ==
   /\ \A k \in 1..Len(cubes) : ~Contradictory(cubes[k])
